@@ -2,7 +2,7 @@
    Statements only (copied from the lemma libraries); every proof is a bare
    `exact`; see the cited files in coq/proofs for the proofs. *)
 From Coq Require Import List NArith ZArith Bool Arith Sorting.Sorted Sorting.Permutation.
-From D2P Require Import Str Err Xml TableTypes Tables Fmt Bullets Merge Collector Walk Paths Package Content ShapeFacts TokFacts FrameFacts BulletsFacts CommentFacts.
+From D2P Require Import Str Err Xml TableTypes Tables Fmt Bullets Merge Collector Walk Iter Output Paths Package Content ShapeFacts TokFacts FrameFacts BulletsFacts LineageFacts SeqFacts CommentFacts CommentSpan.
 Import ListNotations.
 
 (* what a marker records is the length of the list of run strings seen so far *)
@@ -88,3 +88,108 @@ Theorem C12_mismatch :
   comments a o = Ok None.
 Proof. exact comments_mismatch_without_part. Qed.
 Print Assumptions C12_mismatch.
+
+(* PACKAGE LEVEL: when the main document is a body of paragraphs of runs and range markers (markers also between paragraphs; inert elements; flat tables between paragraphs), each tuple's reference text is the concatenation of exactly the run strings emitted between that comment's range start and range end - across paragraph and table boundaries *)
+Theorem C12_reference_text :
+  forall a o cs fs od rest m v celems,
+  comments a o = Ok (Some cs) ->
+  files a = Ok fs -> files_of_type fs s_officeDocument = od :: rest ->
+  part_root a fs o od = Ok m -> part_env a fs o od = Ok v -> span_doc m = true ->
+  comment_entries a fs o = Ok celems ->
+  exists tr dc,
+    body_points v [0%nat] (doc_body m) 0%nat init_cst = Ok (tr, dc)
+    /\ part_collector a fs o od = Ok dc
+    /\ forall i e ks id,
+         nth_error celems i = Some (AE e ks) -> attr_w_req e s_id = Ok id ->
+         exists l1 l2 l3 author date body,
+           nth_error cs i = Some (concat l2, author, date, body)
+           /\ final_runs (o_html o) dc = Ok (l1 ++ l2 ++ l3)
+           /\ dict_get id (c_ranges dc) = Some (length l1, length (l1 ++ l2))
+           /\ between (events v tr) id l1 l2.
+Proof. exact comment_reference_text. Qed.
+Print Assumptions C12_reference_text.
+
+(* one tuple per entry of the comments part, in comments-part order: (slice of body_runs, author, date or empty string, paragraphs joined by a blank line) *)
+Theorem C12_tuples :
+  forall a o cs,
+  comments a o = Ok (Some cs) ->
+  exists fs od rest dc celems,
+    files a = Ok fs /\ files_of_type fs s_officeDocument = od :: rest
+    /\ part_collector a fs o od = Ok dc /\ comment_entries a fs o = Ok celems
+    /\ length (c_ranges dc) = length celems /\ length cs = length celems
+    /\ (celems <> [] ->
+        exists cf crest cenv all_runs,
+          files_of_type fs s_comments = cf :: crest /\ part_env a fs o cf = Ok cenv
+          /\ final_runs (o_html o) dc = Ok all_runs
+          /\ forall i c, nth_error celems i = Some c ->
+               exists tup, nth_error cs i = Some tup
+                           /\ tuple_of o cenv all_runs (c_ranges dc) i c tup).
+Proof. exact comments_tuple_spec. Qed.
+Print Assumptions C12_tuples.
+
+(* the order is the comments part's, not that of the range starts *)
+Theorem C12_comments_part_order :
+  forall a o cs fs celems,
+  comments a o = Ok (Some cs) -> files a = Ok fs -> comment_entries a fs o = Ok celems ->
+  Forall2 (fun c tup => exists e ks, c = AE e ks
+                                     /\ attr_w_req e s_author = Ok (snd (fst (fst tup)))) celems cs.
+Proof. exact comments_order. Qed.
+Print Assumptions C12_comments_part_order.
+
+(* machine-checked example: two overlapping comments spanning two paragraphs and a table, entries in the opposite order of their ranges *)
+Theorem C12_comments_part_order_example :
+  exists fs od rest m v dc,
+    files ex_archive = Ok fs /\ files_of_type fs s_officeDocument = od :: rest
+    /\ part_root ex_archive fs ex_opts od = Ok m /\ part_env ex_archive fs ex_opts od = Ok v
+    /\ span_doc m = true
+    /\ part_collector ex_archive fs ex_opts od = Ok dc /\ c_ranges dc = ex_ranges
+    /\ comments ex_archive ex_opts = Ok (Some ex_result).
+Proof. exact comments_order_example. Qed.
+Print Assumptions C12_comments_part_order_example.
+
+(* the run strings seen at any marker are a prefix of those seen at every later point and of the final flattened run strings - across paragraph and table boundaries *)
+Theorem C12_prefix_across_paragraphs :
+  forall v path ks i s tr s',
+  forallb span_child ks = true -> c_open s = [] -> Inv s ->
+  body_points v path ks i s = Ok (tr, s') ->
+  c_open s' = [] /\
+  forall pre x st post l, tr = pre ++ (x, st) :: post -> runs_so_far v st = Ok l ->
+    (forall y st2 l2, In (y, st2) post -> runs_so_far v st2 = Ok l2 -> exists z, l2 = l ++ z)
+    /\ (forall lf, final_runs (html_on v) s' = Ok lf -> exists z, lf = l ++ z).
+Proof. exact body_markers_prefix. Qed.
+Print Assumptions C12_prefix_across_paragraphs.
+
+(* every recorded range satisfies start <= end <= number of run strings; a start without end is empty *)
+Theorem C12_range_bounds :
+  forall v path ks i s tr s' lf id b e,
+  forallb span_child ks = true -> c_open s = [] -> Inv s -> c_ranges s = [] ->
+  body_points v path ks i s = Ok (tr, s') ->
+  final_runs (html_on v) s' = Ok lf ->
+  dict_get id (c_ranges s') = Some (b, e) ->
+  (b <= e <= length lf)%nat
+  /\ ((forall ev, In ev (events v tr) -> ev_id ev = id -> ev_start ev = true) -> e = b).
+Proof. exact body_ranges_bounds. Qed.
+Print Assumptions C12_range_bounds.
+
+(* the recorded positions cut exactly the run strings emitted between the two markers *)
+Theorem C12_range_is_slice :
+  forall v path ks i s tr s' lf id b e,
+  forallb span_child ks = true -> c_open s = [] -> Inv s -> c_ranges s = [] ->
+  body_points v path ks i s = Ok (tr, s') ->
+  final_runs (html_on v) s' = Ok lf ->
+  dict_get id (c_ranges s') = Some (b, e) ->
+  exists l1 l2 l3, lf = l1 ++ l2 ++ l3 /\ b = length l1 /\ e = length (l1 ++ l2)
+    /\ between (events v tr) id l1 l2
+    /\ firstn (e - b) (skipn b lf) = l2.
+Proof. exact body_range_is_slice. Qed.
+Print Assumptions C12_range_is_slice.
+
+(* different numbers of ranges and entries: the empty-list-with-warning outcome, never wrong pairings *)
+Theorem C12_count_mismatch :
+  forall a o fs od rest dc celems,
+  files a = Ok fs -> files_of_type fs s_officeDocument = od :: rest ->
+  part_collector a fs o od = Ok dc -> comment_entries a fs o = Ok celems ->
+  length (c_ranges dc) <> length celems ->
+  comments a o = Ok None.
+Proof. exact comments_count_mismatch. Qed.
+Print Assumptions C12_count_mismatch.
